@@ -484,6 +484,9 @@ func (e *env) buildTree(tree []Node) error {
 			return infraf("building the tree: %v", err)
 		}
 	}
+	if n := e.restorePremise(); n > 0 {
+		return infraf("harness: the generated tree contained %d symlinks leaving the root", n)
+	}
 	return nil
 }
 
@@ -507,6 +510,36 @@ func symlinkLeaves(rel, target string) bool {
 		}
 	}
 	return false
+}
+
+// restorePremise keeps the premise of the property ("a tree that contains no
+// symlinks leaving it"): a client can turn an inward relative link into an
+// outward one by perfectly legal means (renaming it, or a directory above it,
+// to a shallower place). Such links are removed before the client can use
+// them. A link leaves the root if its text does so lexically from where the
+// link now is, or if the host resolves it to something outside the root.
+func (e *env) restorePremise() int {
+	n := 0
+	_ = filepath.Walk(e.export, func(p string, fi os.FileInfo, err error) error {
+		if err != nil || fi.Mode()&os.ModeSymlink == 0 {
+			return nil
+		}
+		rel, _ := filepath.Rel(e.export, p)
+		target, _ := os.Readlink(p)
+		leaves := symlinkLeaves(filepath.ToSlash(rel), target)
+		if !leaves {
+			if real, err := filepath.EvalSymlinks(p); err == nil && real != e.export && !strings.HasPrefix(real, e.export+"/") {
+				leaves = true
+			}
+		}
+		if leaves {
+			_ = os.Remove(p)
+			n++
+			hx.Label("premise kept: a link that had become outward was removed")
+		}
+		return nil
+	})
+	return n
 }
 
 // findInode reports whether an object with this inode exists inside the
